@@ -62,6 +62,87 @@ theorem isSubclass_spec {s : Proc} (h : ProcInv s) {a b : String} {ida idb : Nat
   refine ⟨s', ?_, h2, h3⟩
   simp only [Proc.isSubclass, ha, hb, hB1, hB2, h1, specLevel]
 
+/-! ### `is_subclass` with a mesh basis on the right -/
+
+theorem meshScan_all_cand (sh : List Cell) (cand : List Nat) : ∀ (rest : List Nat) (x : Nat),
+    (∀ e ∈ rest, e ∈ cand) → meshScan sh cand rest x = true
+  | [], _, _ => rfl
+  | e :: rest, x, h => by
+    have he : cand.contains e = true := by simpa using h e (by simp)
+    simp only [meshScan, he, if_true]
+    exact meshScan_all_cand sh cand rest (x + 1) (fun e' he' => h e' (by simp [he']))
+
+/-- a permutation contains every mesh pattern built on itself (there are no other points) -/
+theorem containsMesh_self (m : Mesh) (hp : IsPerm m.pattern) : containsMesh m.pattern m = true := by
+  have hocc : IsOcc m.pattern m.pattern (List.range m.pattern.length) := by
+    refine ⟨by simp, List.pairwise_lt_range, fun i hi => List.mem_range.mp hi, fun a b ha hb => ?_⟩
+    simp [List.getD_eq_getElem?_getD, ha, hb]
+  have hmem := (C01.mem_occurrencesIn_iff m.pattern m.pattern hp hp _).mpr hocc
+  have hscan : meshScan m.shading ((List.range m.pattern.length).map fun i => m.pattern.getD i 0)
+      m.pattern 0 = true := by
+    rw [map_getD_range]
+    exact meshScan_all_cand _ _ _ _ (fun e he => he)
+  have : List.range m.pattern.length ∈ meshOccInPerm m m.pattern :=
+    List.mem_filter.mpr ⟨hmem, hscan⟩
+  unfold containsMesh
+  cases h : meshOccInPerm m m.pattern with
+  | nil => rw [h] at this; simp at this
+  | cons a t => rfl
+
+/-- a mesh occurrence is in particular a classical occurrence of the underlying permutation -/
+theorem contains_of_containsMesh {σ : NSeq} {m : Mesh} (hσ : IsPerm σ) (hp : IsPerm m.pattern)
+    (h : containsMesh σ m = true) : Contains σ m.pattern := by
+  unfold containsMesh at h
+  cases hl : meshOccInPerm m σ with
+  | nil => rw [hl] at h; simp at h
+  | cons c t =>
+    have hc : c ∈ meshOccInPerm m σ := by rw [hl]; simp
+    have := (List.mem_filter.mp hc).1
+    exact ⟨c, (C01.mem_occurrencesIn_iff m.pattern σ hp hσ c).mp this⟩
+
+/-- **`is_subclass` with a mesh basis on the right**: "the underlying permutation of no mesh pattern
+    of `M2` lies in `Av(B1)`" holds iff every permutation avoiding `B1` avoids every mesh pattern of `M2` -/
+theorem subclass_mesh_iff {B1 : List NSeq} {M2 : List Mesh} (h1 : ValidBasis B1)
+    (h2 : ∀ m ∈ M2, IsPerm m.pattern) :
+    ((M2.map (·.pattern)).all fun p => !(Spec.C02.level B1 p.length).contains p) = true ↔
+      ∀ σ, IsPerm σ → (∀ p ∈ B1, ¬ Contains σ p) → (∀ m ∈ M2, containsMesh σ m = false) := by
+  rw [List.all_eq_true]
+  constructor
+  · intro h σ hσ hav m hm
+    by_contra hc
+    have hc' : containsMesh σ m = true := by simpa using hc
+    have hnot := h m.pattern (List.mem_map_of_mem hm)
+    simp only [Bool.not_eq_true', List.contains_eq_mem, decide_eq_false_iff_not] at hnot
+    have hpp := h2 m hm
+    have : ¬ InAv B1 m.pattern := fun hin => hnot (mem_level.mpr ⟨hin, rfl⟩)
+    rw [InAv_iff h1 hpp] at this
+    unfold Avoids at this
+    simp only [not_forall, not_not] at this
+    obtain ⟨p1, hp1, hc1⟩ := this
+    have hcσ := contains_of_containsMesh hσ hpp hc'
+    exact hav p1 hp1 ((SContains_iff_Contains σ p1).mp
+      (SContains_trans ((SContains_iff_Contains σ m.pattern).mpr hcσ) hc1))
+  · intro h p hp
+    obtain ⟨m, hm, rfl⟩ := List.mem_map.mp hp
+    simp only [Bool.not_eq_true', List.contains_eq_mem, decide_eq_false_iff_not]
+    intro hmem
+    obtain ⟨hin, _⟩ := mem_level.mp hmem
+    have hav : ∀ p ∈ B1, ¬ Contains m.pattern p := (C01.avoidsAll_iff m.pattern B1 hin.1 h1.perm).mp hin.2
+    have := h m.pattern hin.1 hav m hm
+    rw [containsMesh_self m hin.1] at this
+    simp at this
+
+/-- `a.is_subclass(b)` for `a` with a classical and `b` with a mesh basis -/
+theorem isSubclass_spec_mesh {s : Proc} (h : ProcInv s) {a b : String} {ida idb : Nat} {oa ob : AvObj}
+    {B1 : List NSeq} {M2 : List Mesh} (ha : s.obj? a = some (ida, oa)) (hb : s.obj? b = some (idb, ob))
+    (hB1 : oa.basis = .classical B1) (hM2 : ob.basis = .mesh M2) :
+    ∃ s', s.isSubclass a b =
+        .ok (s', (M2.map (·.pattern)).all fun p => !(Spec.C02.level B1 p.length).contains p) ∧
+      ProcInv s' ∧ ProcExt s s' := by
+  obtain ⟨s', h1, h2, h3⟩ := isSubclassLoop_spec (M2.map (·.pattern)) h ha
+  refine ⟨s', ?_, h2, h3⟩
+  simp only [Proc.isSubclass, ha, hb, hB1, hM2, h1, specLevel]
+
 /-! ### `Basis(*patts)` -/
 
 theorem mem_insertSorted {α} (lt : α → α → Bool) (a x : α) : ∀ l : List α,
